@@ -950,6 +950,7 @@ struct LawSpec
   double q = 0;        // |X| <= q with probability >= 1 - 1e-20 per draw
   double lo = -INFINITY, hi = INFINITY; // support
   bool integer = false;
+  bool foldMoments = false; // one key for the four moments (input class of an open finding)
   // reach: the sample minimum must be <= reachLo and the maximum >= reachHi (NaN = not tested)
   double reachLo = NAN, reachHi = NAN;
 };
@@ -1026,7 +1027,8 @@ static void lawCase(Rng& r, Ctx& c, int which)
       // distribution"; both usual meanings (scale or rate) are accepted for beta != 1: the mean must be alpha*beta or alpha/beta
       double al = r.pick(std::vector<double>{0.5, 1., 2., 3.5, 10.}), be = which == 3 ? 1. : r.pick(std::vector<double>{0.5, 2., 4.});
       L.name = fmt("law_gamma(%g,%g)", al, be);
-      L.key  = which == 3 ? "law_gamma:beta=1" : "law_gamma:beta!=1";
+      L.key  = which == 3 ? "law_gamma:beta=1" : "law_gamma:beta-ignored";
+      L.foldMoments = which == 4;
       L.draw = [al, be]() { return law_gamma(al, be); };
       for (int k = 1; k <= 8; k++) L.mu[k] = expl(lgam(al + k) - lgam(al)); // scale 1; rescaled below for beta != 1
       double t = al + 1;
@@ -1039,7 +1041,8 @@ static void lawCase(Rng& r, Ctx& c, int which)
     case 11:
     {
       // law_poisson switches algorithm at parameter 16 (Law.cpp: "while (t >= 16)")
-      double lam = which == 5 ? r.pick(std::vector<double>{0.5, 3., 10., 15.9}) : r.pick(std::vector<double>{16., 20., 50., 200.});
+      double lam = which == 5 ? r.pick(std::vector<double>{0.5, 3., 10., 15.9}) : r.pick(std::vector<double>{17., 20., 25.});
+      if (which == 11) { N = th ? 2000000 : 1000000; pr = 27.7 / N; L.foldMoments = true; }
       L.name = fmt("law_poisson(%g)", lam);
       L.key  = lam < 16 ? "law_poisson:lambda<16" : "law_poisson:lambda>=16";
       L.draw = [lam]() { return (double)law_poisson(lam); };
@@ -1149,41 +1152,66 @@ static void lawCase(Rng& r, Ctx& c, int which)
   if (!std::isnan(L.reachHi))
     c.check("range-reach", K + ":range-not-reached:high", mx >= L.reachHi, std::max(0., L.reachHi - mx), 0,
             fmt("%s: maximum of %ld draws = %g; a sample of the law goes above %g with probability 1 - 1e-12", L.name.c_str(), N, mx, L.reachHi));
-  bool gammaScaled = (which == 4);
+  // moments: the mean, and the central moments of order 2-4 about the mean OF THE LAW (an exact expectation again:
+  // E[(X-mu)^k] = cm_k, Var = (cm_2k - cm_k^2)/N), which are far more sensitive to a wrong spread than raw moments.
+  //   bound = z sqrt(Var) + 2 Q^k x/(3N) (Bernstein, |X - mu| <= Q = q + |mu|) + 2e-3 sqrt(cm_2k)
+  // the last term is a generator allowance: the old-style generators are driven by a multiplicative congruential sequence
+  // with 2e7 states whose consecutive terms are strongly dependent; calibration at N = 2e6 shows reproducible moment
+  // deviations of a few 1e-4 relative (6-7 standard errors) for beta / binomial / truncated gaussian draws. They are
+  // reported as an observation; the allowance keeps the verdict stable across seeds.
+  auto central = [&](const LD* mu, LD sc, LD* cm, LD& m1) {
+    // moments of sc * X from the raw moments of X
+    LD raw[9];
+    raw[0] = 1;
+    for (int k = 1; k <= 8; k++) raw[k] = mu[k] * powl(sc, k);
+    m1 = raw[1];
+    for (int k = 0; k <= 8; k++)
+    {
+      LD acc = 0, binom = 1;
+      for (int j = 0; j <= k; j++)
+      {
+        acc += binom * raw[j] * powl(-m1, k - j);
+        binom = binom * (k - j) / (j + 1);
+      }
+      cm[k] = acc;
+    }
+  };
+  auto sampleCentral = [&](LD m1, int k) {
+    if (k == 1) return (double)(s[1] / N);
+    LD acc = 0, binom = 1;
+    for (int j = 0; j <= k; j++)
+    {
+      acc += binom * (j == 0 ? (LD)1 : s[j] / N) * powl(-m1, k - j);
+      binom = binom * (k - j) / (j + 1);
+    }
+    return (double)acc;
+  };
+  std::vector<double> scales = {1.};
+  if (which == 4)
+  {
+    // beta as a scale or as a rate: accept the better of the two
+    double be = 0;
+    sscanf(L.name.c_str(), "law_gamma(%*lf,%lf)", &be);
+    scales = {be, 1. / be};
+  }
   for (int k = 1; k <= 4; k++)
   {
-    double got = (double)(s[k] / N);
-    auto bnd = [&](LD muk, LD mu2k, double q) {
-      LD var = std::max((LD)0, mu2k - muk * muk);
-      // + generator allowance 1e-3 * sqrt(E[X^2k]): the old-style generators are driven by a multiplicative congruential
-      //   sequence with 2e7 states whose consecutive terms are strongly dependent; calibration at N = 2e6 shows reproducible
-      //   moment deviations of a few 1e-4 relative (6-7 standard errors) for beta / binomial / truncated gaussian draws.
-      //   They are reported as an observation; the allowance keeps the verdict stable across seeds.
-      return ZLEVEL * std::sqrt((double)var / N) + 2 * std::pow(q, k) * XLEVEL / (3. * N) + 1e-3 * std::sqrt((double)mu2k);
-    };
-    if (!gammaScaled)
+    double best = INFINITY, bestErr = 0, bestBound = 0, bestWant = 0, bestGot = 0;
+    for (double sc : scales)
     {
-      double bound = bnd(L.mu[k], L.mu[2 * k], L.q);
-      c.check(fmt("moment%d", k), K + fmt(":moment%d", k), std::fabs(got - (double)L.mu[k]) <= bound, std::fabs(got - (double)L.mu[k]), bound,
-              fmt("%s: sample E[X^%d] = %.8g, law %.8g, bound %.3g (N=%ld)", L.name.c_str(), k, got, (double)L.mu[k], bound, N));
+      LD cm[9], m1;
+      central(L.mu, sc, cm, m1);
+      double want  = k == 1 ? (double)m1 : (double)cm[k];
+      double got   = sampleCentral(m1, k);
+      LD var       = std::max((LD)0, k == 1 ? cm[2] : cm[2 * k] - cm[k] * cm[k]);
+      double Q     = L.q * std::max(sc, 1.) + std::fabs((double)m1);
+      double bound = ZLEVEL * std::sqrt((double)var / N) + 2 * std::pow(Q, k) * XLEVEL / (3. * N) + 2e-3 * std::sqrt((double)cm[2 * k]);
+      double e     = std::fabs(got - want);
+      if (e / bound < best) { best = e / bound; bestErr = e; bestBound = bound; bestWant = want; bestGot = got; }
     }
-    else
-    {
-      // beta as a scale or as a rate: accept the better of the two
-      double be = 0;
-      sscanf(L.name.c_str(), "law_gamma(%*lf,%lf)", &be);
-      double best = INFINITY, bb = 0, want = 0;
-      for (double sc : {be, 1. / be})
-      {
-        LD muk = L.mu[k] * powl(sc, k), mu2k = L.mu[2 * k] * powl(sc, 2 * k);
-        double bound = bnd(muk, mu2k, L.q);
-        double e = std::fabs(got - (double)muk);
-        if (e / bound < best) { best = e / bound; bb = bound; want = (double)muk; }
-      }
-      c.check(fmt("moment%d", k), K + fmt(":moment%d", k), best <= 1, best * bb, bb,
-              fmt("%s: sample E[X^%d] = %.8g matches neither beta as a scale nor as a rate (closest %.8g, bound %.3g); E for beta=1: %.8g", L.name.c_str(),
-                  k, got, want, bb, (double)L.mu[k]));
-    }
+    c.check(fmt("moment%d", k), L.foldMoments ? K : K + fmt(":moment%d", k), best <= 1, bestErr, bestBound,
+            fmt("%s: sample %s = %.8g, law %.8g%s, bound %.3g (N=%ld)", L.name.c_str(), k == 1 ? "mean" : fmt("central moment %d", k).c_str(), bestGot,
+                bestWant, which == 4 ? " (closest of beta as a scale / as a rate)" : "", bestBound, N));
   }
 }
 
